@@ -4,6 +4,7 @@ package main
 
 import (
 	"fmt"
+	"strings"
 	"go/constant"
 	"go/token"
 	"go/types"
@@ -170,5 +171,110 @@ func ruleOU17(c *Ctx) {
 	}
 	if n == 0 {
 		c.ok("<module>", "const-bounds", "-", "no constant-bound slice or index expression on a value of unknown length")
+	}
+	c.indexResultBounds()
+}
+
+// indexResultBounds (clause index-result, whole module): the result of a search function that answers -1 for "not found"
+// (strings.Index, LastIndexByte, bytes.IndexByte, ...) is used as a slice bound or index only behind a test that it is not
+// negative. After a command has committed, a panic in the code that prints its reply makes the command exit non-zero
+// although the store changed.
+func (c *Ctx) indexResultBounds() {
+	isSearch := func(v ssa.Value) (string, bool) {
+		cl, _ := callOf(v)
+		if cl == nil {
+			return "", false
+		}
+		n := calleeFullName(&cl.Call)
+		for _, p := range []string{"strings.Index", "strings.LastIndex", "bytes.Index", "bytes.LastIndex", "slices.Index", "slices.IndexFunc", "strings.IndexByte", "strings.IndexRune", "strings.IndexAny", "strings.IndexFunc"} {
+			if strings.HasPrefix(n, p) {
+				return n, true
+			}
+		}
+		return "", false
+	}
+	for _, f := range c.Fns {
+		if !c.InModule(f) || f.Blocks == nil {
+			continue
+		}
+		k := 0
+		var facts []branchFact
+		eachInstr(f, func(r instrRef) {
+			var bounds []ssa.Value
+			switch x := r.In.(type) {
+			case *ssa.Slice:
+				bounds = append(bounds, x.Low, x.High, x.Max)
+			case *ssa.IndexAddr:
+				bounds = append(bounds, x.Index)
+			case *ssa.Index:
+				bounds = append(bounds, x.Index)
+			}
+			for _, b := range bounds {
+				if b == nil {
+					continue
+				}
+				v := strip(b)
+				name, ok := isSearch(v)
+				if !ok {
+					continue
+				}
+				k++
+				if facts == nil {
+					facts = directFacts(f)
+				}
+				guards := map[edge]bool{}
+				for _, bf := range facts {
+					a := bf.A
+					var other ssa.Value
+					op := a.Op
+					switch {
+					case a.Kind == "const" && strip(a.X) == v:
+						other, op = a.C, token.EQL
+					case a.Kind == "cmp" && strip(a.X) == v:
+						other = a.Y
+					case a.Kind == "cmp" && strip(a.Y) == v:
+						other = a.X
+						switch a.Op {
+						case token.LSS:
+							op = token.GTR
+						case token.LEQ:
+							op = token.GEQ
+						case token.GTR:
+							op = token.LSS
+						case token.GEQ:
+							op = token.LEQ
+						}
+					default:
+						continue
+					}
+					kc, isC := other.(*ssa.Const)
+					if !isC || kc.Value == nil || kc.Value.Kind() != constant.Int {
+						continue
+					}
+					kv, _ := constant.Int64Val(kc.Value)
+					nonNeg := false
+					switch op {
+					case token.GEQ:
+						nonNeg = bf.Holds && kv >= 0
+					case token.GTR:
+						nonNeg = bf.Holds && kv >= -1
+					case token.LSS:
+						nonNeg = !bf.Holds && kv >= 0
+					case token.LEQ:
+						nonNeg = !bf.Holds && kv >= -1
+					case token.EQL:
+						nonNeg = (!bf.Holds && kv == -1) || (bf.Holds && kv >= 0)
+					case token.NEQ:
+						nonNeg = bf.Holds && kv == -1
+					}
+					if nonNeg {
+						guards[bf.E] = true
+					}
+				}
+				c.check(len(guards) > 0 && mustPassEdges(f, r.Blk, guards), c.Name(f), fmt.Sprintf("index-result %s#%d", name, k), c.Pos(r.In.Pos()),
+					"the search result is used as a bound only where it is known not to be negative",
+					"the result of "+name+" is used as a slice bound or index without a test that it is not -1: when the searched-for byte or string is absent the expression panics - in code that prints a reply after the command has committed, the command exits non-zero although the store changed")
+			}
+		})
 	}
 }
